@@ -37,7 +37,7 @@ fn clause_class(clause: &str) -> &'static str {
     match clause {
         "ktable.eq" | "replay.eq" | "residue" | "quiesce.eq" | "laws.eq" | "redundant.eq" | "mergevsops.eq" | "shadow" | "serde.eq" | "reset.eq" | "restart.ghost" => "eq",
         "serde.ser" => "ser",
-        "validate.origin" | "validate.deliver" | "validate.any" => "validate",
+        "validate.origin" | "validate.deliver" | "validate.any" | "validate.payload" => "validate",
         "vmerge.correct" | "vmerge.sym" | "vmerge.misuse" => "vmerge",
         "reset" | "reset.join" | "reset.idem" => "reset",
         "panic.read" | "panic.apply" | "panic.merge" | "panic.gen" => "panic",
